@@ -37,6 +37,7 @@ type Rec struct {
 	S   string    `sod:"index"`
 	T   time.Time `sod:"index"`
 	P   int
+	Q   float64 // unindexed payload; NaN makes the object unserialisable
 	L   string `sod:"lower"`
 	In  *Inner
 	Emb
@@ -97,7 +98,7 @@ func NewRec(v, k int) *Rec {
 	r := &Rec{
 		K: tabK[k], N: tabN[k],
 		A: tabA[v], U16: tabU16[v], U64: tabU64[v], F64: tabF64[v], F32: tabF32[v],
-		S: tabS[v], T: tabT[v], P: tabP[v], L: tabL[v],
+		S: tabS[v], T: tabT[v], P: tabP[v], L: tabL[v], Q: 0.5 * float64(v),
 		Emb: Emb{E: tabE[v]},
 	}
 	if in := tabIn[v]; in != nil {
